@@ -57,6 +57,17 @@ def run(tier="quick", seed=1, replay=None):
             behaviours += vf.load_witnesses(PROP)
         recs, v, _ = vf.replay_and_validate(wd, behaviours, "./server", "TestVFStoreReplay", ["server"], "Trace_Store",
                                             go_timeout=5400, tlc_timeout=3000)
+        # conformance with the model itself: Store.tla's actions applied to every recorded operation
+        mcfg = vf.write_cfg(wd, "Trace_StoreModel.cfg", dict({k: w for k, w in CONSTS.items()}, MaxOps=0), "INIT TInit\nNEXT Step\nPOSTCONDITION Accepted\nCHECK_DEADLOCK FALSE\n")
+        mv = vf.validate_trace("Trace_StoreModel", "Trace_StoreModel.cfg", os.path.join(wd, "trace.ndjson"), wd, timeout=3000)
+        drift_kinds = {}
+        for _, _, fl in mv["drift"]:
+            for x in fl:
+                drift_kinds[x] = drift_kinds.get(x, 0) + 1
+        cov["model_drift"] = drift_kinds
+        cov["model_drift_lines"] = len(mv["drift"])
+        if drift_kinds:
+            res.note(f"model drift (real store differs from Store.tla): {drift_kinds}")
         traces = vf.split_traces(recs)
         beh = {str(b["t"]): b for b in behaviours}
         cov["traces_validated_against_impl"] = len(traces)
